@@ -932,3 +932,33 @@ func init() {
 	}
 	libModels["fmt.Sprintf"] = sprintf
 }
+
+func init() {
+	// (*net.UDPAddr).String(): only ever used as a map key by hop (AddressHashKey);
+	// modelled as an injective encoding of (IP bytes, port, zone).
+	libModels["(*net.UDPAddr).String"] = func(in *Interp, fn *ssa.Function, args []Value) Value {
+		p := args[0].(Ptr)
+		if p.IsNil() {
+			return strLit("<nil>")
+		}
+		st := in.load(p, fn.Signature.Recv().Type().(*types.Pointer).Elem()).(*Struct)
+		ip := st.F[0].(Slice)
+		port := st.F[1].(*Term)
+		zone := st.F[2].(Str)
+		ipLen := ip.lenOr0()
+		n := Add(Add(ipLen, C64(3)), zone.n)
+		arr := newSArrZero(8, n)
+		arr.set(C64(0), Extract(ipLen, 7, 0))
+		if ip.obj != nil {
+			arr.copyFrom(C64(1), in.sarrOf(ip).r, ip.off, ipLen)
+		}
+		arr.set(Add(ipLen, C64(1)), Extract(port, 15, 8))
+		arr.set(Add(ipLen, C64(2)), Extract(port, 7, 0))
+		arr.copyFrom(Add(ipLen, C64(3)), zone.r, zone.off, zone.n)
+		if o, ok := arr.r.(*ropeOverlay); ok {
+			o.frozen = true
+		}
+		in.p.ex.res.Assumptions = appendUnique(in.p.ex.res.Assumptions, "(*net.UDPAddr).String() modelled as an injective encoding of (IP bytes, port, zone); hop only uses it as a map key")
+		return Str{r: arr.r, off: C64(0), n: n}
+	}
+}
